@@ -54,7 +54,23 @@ ASSUME CodeSelectionLead ==
 
 Shape(W, H) == IF W = 1 /\ H = 1 THEN "1x1" ELSE IF H = 1 THEN "row" ELSE IF W = 1 THEN "column" ELSE "rect"
 
-Cases ==
+\* Float values that generic code mishandles: the index map treats a component as an opaque value, so the same map must carry
+\* -0.0, subnormals, FLT_MAX, infinities, NaNs with payload and non-dyadic values bit for bit.  Codes 1000 + i name them (the
+\* driver holds the table of bit patterns and identifies a decoded float by its bits).
+NSpecial == 16
+SpecialInput(w, W, H) == [i \in 1..InLen(w, W, H) |-> 1000 + ((i * 5 + W) % NSpecial)]
+SpecialSizes == {<<2, 2>>, <<3, 1>>, <<1, 3>>, <<4, 2>>}
+FloatWriters == Writers \ {"writePPM", "writePGM"}
+ASSUME SpecialsAllUsed == \A c \in 1000..(1000 + NSpecial - 1) : \E w \in FloatWriters, s \in SpecialSizes :
+                            \E i \in 1..InLen(w, s[1], s[2]) : SpecialInput(w, s[1], s[2])[i] = c
+SpecialCases ==
+  {[a |-> w,
+    arg |-> [w |-> s[1], h |-> s[2], buf |-> "exact", pix |-> SpecialInput(w, s[1], s[2]), pixcomp |-> PixComp(w), sentinel |-> Sentinel],
+    cls |-> "buf=exact,values=special",
+    shape |-> Shape(s[1], s[2]),
+    exp |-> Expected(w, s[1], s[2], SpecialInput(w, s[1], s[2]))] : w \in FloatWriters, s \in SpecialSizes}
+
+Cases == SpecialCases \cup
   {[a |-> w,
     arg |-> [w |-> s[1], h |-> s[2], buf |-> b, pix |-> Input(w, s[1], s[2]), pixcomp |-> PixComp(w), sentinel |-> Sentinel],
     cls |-> "buf=" \o b,
